@@ -312,6 +312,28 @@ func c06Check1(k c06Case) (string, string) {
 				return k.Kind + "-roundtrip", fmt.Sprintf("GetFrom after AddTo(%v:%d, tid %x, attr %#x) = %v:%d err %v", net.IP(k.IP), k.Port, k.TID, k.Attr, gotIP, gotPort, gerr)
 			}
 		}
+		// (vi) the XOR pad is the message's transaction id, which is the struct field: a caller that assigned
+		// m.TransactionID after the header was written (and writes the header again before sending) gets the same bytes,
+		// and reads its address back from that very message in between
+		if k.Kind == "xor" {
+			h := new(stun.Message)
+			h.TransactionID = [12]byte{0xEE, 0xEE, 0xEE, 0xEE, 0xEE, 0xEE, 0xEE, 0xEE, 0xEE, 0xEE, 0xEE, 0xEE}
+			h.Type = stun.NewType(stun.Method(1), stun.MessageClass(2))
+			h.WriteHeader()
+			h.TransactionID = tid
+			a := stun.XORMappedAddress{IP: net.IP(k.IP), Port: k.Port}
+			if err := a.AddToAs(h, at); err != nil {
+				return "xor-addto-error", err.Error()
+			}
+			var g stun.XORMappedAddress
+			if gerr := g.GetFromAs(h, at); gerr != nil || g.Port != k.Port || !bytes.Equal(g.IP, wantIP) {
+				return "xor-roundtrip/transaction-id-assigned-on-the-field", fmt.Sprintf("header written, m.TransactionID assigned (%x), AddToAs(%v:%d, %#x), GetFromAs on that message = %v:%d err %v", k.TID, net.IP(k.IP), k.Port, k.Attr, g.IP, g.Port, gerr)
+			}
+			h.WriteHeader()
+			if !bytes.Equal(h.Raw, wantRaw) {
+				return "xor-wire-format/transaction-id-assigned-on-the-field", fmt.Sprintf("header written, m.TransactionID assigned (%x), AddToAs(%v:%d, %#x), WriteHeader: %x, RFC 5389 s15 prescribes %x", k.TID, net.IP(k.IP), k.Port, k.Attr, h.Raw[20:], wantRaw[20:])
+			}
+		}
 		// (v) the same read from inside a ForEach callback, and with other address-shaped attributes (the RFC 3489
 		// ones included) carrying a different address in front of it: a getter reads ITS attribute of THIS message
 		{
@@ -372,6 +394,33 @@ func c06Check1(k c06Case) (string, string) {
 			})
 			if !visited || ferr != nil || fport != k.Port || !bytes.Equal(fip, wantIP) {
 				return k.Kind + "-roundtrip/inside-ForEach", fmt.Sprintf("attr %#x read from inside a ForEach callback: %v:%d err %v (visited %v), the message carries %v:%d (tid %x)", k.Attr, fip, fport, ferr, visited, net.IP(wantIP), k.Port, k.TID)
+			}
+			// the attribute twice (the address, then another one), a ForEach whose callback fails at the second visit:
+			// the getter still reads the first, and the attribute list is as it was
+			{
+				var second []byte
+				if k.Kind == "xor" {
+					second = ref.EncodeXORMappedAddress(ref.Addr{IP: decoyIP, Port: 7}, tid)
+				} else {
+					second = ref.EncodeMappedAddress(ref.Addr{IP: decoyIP, Port: 7})
+				}
+				two := ref.Encode(ref.TypeWord(1, 2), tid, []ref.EncodeAttr{{Type: 0x8022, Value: []byte("sw")}, {Type: k.Attr, Value: wantVal}, {Type: k.Attr, Value: second}})
+				d2, derr := decodeCopy(two)
+				if derr != nil {
+					return k.Kind + "-redecode", derr.Error()
+				}
+				before := fmt.Sprint(d2.Attributes)
+				visits := 0
+				_ = d2.ForEach(at, func(*stun.Message) error {
+					visits++
+					if visits == 2 {
+						return errC02Stop
+					}
+					return nil
+				})
+				if ip, port, e := read(d2); e != nil || port != k.Port || !bytes.Equal(ip, wantIP) || fmt.Sprint(d2.Attributes) != before {
+					return k.Kind + "-roundtrip/after-a-failing-ForEach", fmt.Sprintf("attr %#x twice in a message, ForEach whose callback failed at the second visit (%d visits): the getter then reads %v:%d err %v, the first one carries %v:%d; attribute list unchanged: %v", k.Attr, visits, ip, port, e, net.IP(wantIP), k.Port, fmt.Sprint(d2.Attributes) == before)
+				}
 			}
 		}
 		// (iv) the reference decoder reads the library's bytes
